@@ -117,6 +117,9 @@ def explore(acc, subj, pname, bs, b):
             acc.traces_validated += 1
             picks = [int(i) for i in np.asarray(res[1]).ravel()]
             acc.outcome((subj.name, pname, bs, lab, tuple(picks)))
+            if len(hist) == 1 and not acc.samples:
+                acc.sample({"subject": subj.name, "pool": pname, "X": X.tolist(), "batch_size": bs, "loop_history": [{"labels": h[0], "tape": h[1]} for h in hist] + [
+                    {"labels": list(lab), "tape": list(tp.choices), "queried": picks}]})
             fq = F.fp(q2)
             for ans in itertools.product((0, 1), repeat=len(picks)):
                 l2 = list(lab)
